@@ -26,6 +26,11 @@ def lifecycle(rng, tag, fid0):
             ops.append(submit_op("L", fid, dict(id=fid, kind="work", dur=0), []))
             fid += 1
         if kind == "killed":
+            if rng.random() < 0.4:
+                # the workers have live descendants (a busy nested executor) when they are killed
+                ops.append(submit_op("L", fid, dict(id=fid, kind="nested", dur=0,
+                                                    nested=dict(workers=1, sub=[dict(id=fid + 500, kind="work", dur=1e4)])), []))
+                fid += 1
             ops.append(submit_op("L", fid, dict(id=fid, kind="work", dur=1e4), []))
             fid += 1
             if rng.random() < 0.25:
